@@ -329,3 +329,61 @@ func VHarness_C09_ThreeSaves() {
 	}
 	vReach("done")
 }
+
+// C09 (batched format, merge of a save into the stored first batch): the
+// stored batch may have an index gap inside it (entries saved, then a snapshot
+// beyond the last index, then later entries of the same batch); a save whose
+// first index lies inside the stored batch cuts it exactly there - the result
+// is the stored entries below the first new index followed by the new entries:
+// never a stale overwritten entry, never a lost one.
+//vcheck: reach=gap,overwrite-after-the-gap,append,done workers=8 forbid=.
+func VHarness_C09_MergedFirstBatch() {
+	batchSize = 8
+	// stored batch: 2..4 entries of batch 0 with an optional gap
+	nl := 2 + vChoose("stored", 3)
+	first := 1 + uint64(vChoose("first", 2))
+	gapAt := vChoose("gapAt", nl) // 0 = no gap, k = a gap of one index before entry k
+	var lb pb.EntryBatch
+	idx := first
+	for k := 0; k < nl; k++ {
+		if gapAt != 0 && k == gapAt {
+			idx++
+			vReach("gap")
+		}
+		lb.Entries = append(lb.Entries, pb.Entry{Index: idx, Term: 1})
+		idx++
+	}
+	last := lb.Entries[nl-1].Index
+	// the save: 1..2 entries of a newer term starting inside the stored batch or right behind it
+	start := first + 1 + uint64(vChoose("start", int(last-first)+1))
+	ne := 1 + vChoose("new", 2)
+	var eb pb.EntryBatch
+	for k := 0; k < ne; k++ {
+		eb.Entries = append(eb.Entries, pb.Entry{Index: start + uint64(k), Term: 2})
+	}
+	vAssume(start+uint64(ne)-1 < batchSize)
+	// the expected content
+	var want []pb.Entry
+	for _, e := range lb.Entries {
+		if e.Index < start {
+			want = append(want, e)
+		}
+	}
+	want = append(want, eb.Entries...)
+	if start <= last {
+		if gapAt != 0 && start > lb.Entries[gapAt].Index-1 {
+			vReach("overwrite-after-the-gap")
+		}
+	} else {
+		vReach("append")
+	}
+	lbc := pb.EntryBatch{Entries: append([]pb.Entry(nil), lb.Entries...)}
+	got := getMergedFirstBatch(eb, lbc)
+	vAssert(len(got.Entries) == len(want), "merged-batch-has-exactly-the-kept-and-the-new-entries")
+	if len(got.Entries) == len(want) {
+		for i := range want {
+			vAssert(got.Entries[i].Index == want[i].Index && got.Entries[i].Term == want[i].Term, "merged-batch-entry")
+		}
+	}
+	vReach("done")
+}
